@@ -86,6 +86,27 @@ def replay_decode(p):
         if bad: return {"violated": True, "detail": {"layout": label, "input": bytes(octs).hex(), "broken": bad[:3]}, "found_by": "bounded random instances of the layout"}
     return {"violated": False, "inconclusive": True, "detail": "model and 400 random instances of the layout decode as specified"}
 
+def history_search(p):
+    """bounded search over decode *histories* in one interpreter (module state reset before each history): the first list of a history is
+    followed by instances of every layout; confirms models that depend on state kept between calls (module-level tables, caches)"""
+    import sys, importlib
+    pid = p.get("pid") or str(p.get("obligation", ""))[:0]
+    cases = all_cases(); labels = list(cases); rnd = random.Random(p.get("seed", 0)); ev = 0
+    def purge():
+        for k in [k for k in sys.modules if k == "han" or k.startswith("han.")]: del sys.modules[k]
+    for a in labels:
+        for rep in range(p.get("reps", 2)):
+            purge(); hist = []
+            order = [a] + rnd.sample(labels, len(labels)) + rnd.sample(labels, len(labels))
+            for lab in order:
+                V = ConcV(rnd); module, func, octs, exp = cases[lab](V); ev += 1
+                bad = run_case(module, func, octs, exp); hist.append({"layout": lab, "input": bytes(octs).hex()})
+                if bad:
+                    purge(); alone = run_case(module, func, octs, exp)
+                    return {"violated": True, "detail": {"history": hist[-6:] if len(hist) > 6 else hist, "history_length": len(hist), "broken": bad[:3], "same_input_in_a_fresh_interpreter": "decodes as specified" if not alone else alone[:2]}}
+    purge()
+    return {"violated": False, "evaluations": ev, "detail": "no decode history (every layout first, then two random orders of all layouts) breaks the specification"}
+
 def layouts_random(p):
     """bounded differential: random instances of every layout of a family"""
     fam = {"C07": SP.aidon_cases, "C08": SP.kaifa_cases, "C09": SP.kamstrup_cases, "C10": SP.datetime_cases}[p["family"]]()
